@@ -329,10 +329,30 @@ pub fn run(ctx: &Ctx) -> Report {
         st = st.merge(st5);
     }
 
+    // (6) character alignment: regions / services made of an ASCII prefix of every length 0..=140 followed by two-,
+    //     three- and four-byte characters, so that a multi-byte character straddles every byte offset up to 140
+    //     (whatever is done with the text besides hashing its bytes — clipping for a log line, say — meets every
+    //     alignment)
+    {
+        let tails = ["\u{e9}\u{65e5}\u{1f600}\u{e9}\u{65e5}\u{1f600}", "\u{1f600}\u{1f600}\u{1f600}", "\u{e9}"];
+        let n6 = 141 * tails.len() as u64 * 2;
+        let base6 = n1 + n2 + n3 + n4 * 4 + 2_000_000;
+        let st6 = par_sweep(n6, |i, st| {
+            let k = (i / 2 / tails.len() as u64) as usize;
+            let tail = tails[((i / 2) % tails.len() as u64) as usize];
+            let text = format!("{}{}", "r".repeat(k), tail);
+            let (r, v) = if i % 2 == 0 { (text.as_str(), "service") } else { ("us-east-1", text.as_str()) };
+            check_chain(base6 + i, &secret(40, 1), (2015, 8, 30), r, v, st);
+            st.nontrivial(&(i % 2, k, tail, "alignment"));
+            st.outcome("chain:alignment");
+        });
+        st = st.merge(st6);
+    }
+
     Report {
         stats: st,
         rule: format!(
-            "(1) capacities {{0,1,3,4,5,44,45,64,128}} x every secret length 0..={} and the lengths 65480..65600 and 1048560..1048620 x 9 fills (ASCII, mixed, multi-byte UTF-8, trailing NUL, trailing newline, leading/trailing blank and tab, trailing no-break space, beginning with the literals 'AWS4' / 'aws4_request'): accepted iff capacity >= 4 and length <= capacity-4, never a panic; (2) every accepted length 0..=40 x 9 fills x {} special dates (years 1/999/1000/9999, every 29 Feb 1896-2104) x 36 (region, service) pairs over {{empty, us-east-1, non-ASCII, 1000 bytes, with '/', with NUL}}: read-back of the secret, the four chain keys and all six shortcut derivations compared with the reference HMAC chain; (3) every calendar date {}-01-01..{}-12-31; (4) every sequence of 1..{} derivations on one thread over 12 secrets that are prefixes / NUL-extensions / case variants of one another x 2 dates, each judged alone; (5) every AWS region code and pseudo-region (aws-global, aws-cn-global, fips-*, s3-external-1, ...: 62 names) x every service signing name (70) x 2 secrets. states = distinct reference signing keys; non-trivial = distinct inputs",
+            "(1) capacities {{0,1,3,4,5,44,45,64,128}} x every secret length 0..={} and the lengths 65480..65600 and 1048560..1048620 x 9 fills (ASCII, mixed, multi-byte UTF-8, trailing NUL, trailing newline, leading/trailing blank and tab, trailing no-break space, beginning with the literals 'AWS4' / 'aws4_request'): accepted iff capacity >= 4 and length <= capacity-4, never a panic; (2) every accepted length 0..=40 x 9 fills x {} special dates (years 1/999/1000/9999, every 29 Feb 1896-2104) x 36 (region, service) pairs over {{empty, us-east-1, non-ASCII, 1000 bytes, with '/', with NUL}}: read-back of the secret, the four chain keys and all six shortcut derivations compared with the reference HMAC chain; (3) every calendar date {}-01-01..{}-12-31; (4) every sequence of 1..{} derivations on one thread over 12 secrets that are prefixes / NUL-extensions / case variants of one another x 2 dates, each judged alone; (5) every AWS region code and pseudo-region (aws-global, aws-cn-global, fips-*, s3-external-1, ...: 62 names) x every service signing name (70) x 2 secrets; (6) regions and services made of an ASCII prefix of every length 0..140 followed by 2-, 3- and 4-byte characters (a multi-byte character across every byte offset up to 140). states = distinct reference signing keys; non-trivial = distinct inputs",
             max_len, nd, y0, y1, depth
         ),
         bounds: json!({"max_secret_len": max_len, "dates_from_year": y0, "dates_to_year": y1}),
